@@ -1905,7 +1905,45 @@ def r12(ctx):
                f"{len(b)} of {counts[kind]} lines are read differently, e.g. line {b[0][0]} `{b[0][1]}` -> {b[0][2]}" if b else "")
 
 
+def r19(ctx):
+    """One body reader.  Every method of the deserializer that builds a message's blocks (add_block / create_block_list)
+    gets the body through the zero-coding expansion when the message is flagged zero-coded: it holds the
+    `zero_code_expand` call under the `.zerocoded` fact itself, or every method of the class that calls it does (the
+    expanded body is handed down).  A second, specialised body parser that branches off in front of the expansion reads
+    a zero-coded body as if it were plain."""
+    repo = ctx.repo
+    ctx.rule("C01.R19", "every block-building body parser of the deserializer sits behind the zero-coding expansion: it (or every "
+                        "caller inside the class) expands the body under msg.zerocoded before reading it")
+    ci = repo.cls("UDPMessageDeserializer")
+    meths = {}
+    for k in repo.mro(ci):
+        for nm, f in k.methods.items():
+            meths.setdefault(nm, f)
+
+    def expands(f):
+        return any(has_path_fact(c, "zerocoded", True, f.node) for c in find_calls(f.node, "zero_code_expand"))
+
+    def callers(f):
+        return [g for g in meths.values() if g is not f and any(
+            isinstance(c.func, ast.Attribute) and isinstance(c.func.value, ast.Name) and c.func.value.id in ("self", "cls")
+            and c.func.attr == f.name for c in calls(g.node))]
+
+    def behind(f, depth=0):
+        if expands(f):
+            return True
+        cs = callers(f)
+        return bool(cs) and depth < 3 and all(behind(g, depth + 1) for g in cs)
+    builders = [f for f in meths.values()
+                if any(isinstance(c.func, ast.Attribute) and c.func.attr in ("add_block", "create_block_list") for c in calls(f.node))]
+    ctx.floor("C01.R19", "block-building methods of the deserializer", len(builders), 1)
+    for f in sorted(builders, key=lambda g: g.name):
+        ctx.ob("C01.R19", f"{f.qual}: blocks are built from a body that went through the zero-coding expansion", behind(f), f.where,
+               f"{f.qual} builds blocks but neither it nor every caller inside the class expands the body under msg.zerocoded: a "
+               f"zero-coded message of the kind it handles is parsed as if it were plain (wrong values or a parse error)")
+
+
 def run(ctx):
+    r19(ctx)
     r18(ctx)
     r17(ctx)
     r16(ctx)
